@@ -404,6 +404,8 @@ class Translator:
                 fn = n
         if fn is None:
             raise TranslateError(f'{mod.path}: method {cname}.{mname} not found')
+        if fn.decorator_list:
+            self.err(mod, fn, f'method {cname}.{mname} is decorated: outside the translated subset')
         env = Env(self, mod, f'{cname}.{mname}', arith)
         env.raising = any(isinstance(n, ast.Raise) for n in ast.walk(fn))
         args = fn.args.args
@@ -433,6 +435,9 @@ class Translator:
 
     # ------------------------------------------------------------------ functions
     def emit_function(self, mod, fn, arith, spec=None):
+        if fn.decorator_list:
+            self.err(mod, fn, f'function {fn.name} is decorated ({ast.get_source_segment(mod.src, fn.decorator_list[0])}): '
+                              f'decorators (caches, wrappers) are outside the translated subset')
         env = Env(self, mod, fn.name, arith)
         raising = self.is_raising(mod, fn.name)
         env.raising = raising
@@ -785,7 +790,7 @@ class Env:
                 k = self.const_kind(gm, val)
                 pre = '' if gm is self.mod else f'Gen{self.arith}.{gm.leanname}.'
                 return (f'{pre}{lean_ident(g[2])}', k)
-            self.err(node, f'unknown name {n}')
+            self.err(node, f'unknown name {n} (module-level state or an untranslated global is outside the subset)')
         if isinstance(node, ast.Attribute):
             if selfname and isinstance(node.value, ast.Name) and node.value.id == selfname:
                 if node.attr not in selffields:
